@@ -306,13 +306,13 @@ def discharge(prelude: List[Any], obligations: List[Any], timeout: float = 10.0,
     if os.environ.get("PYVC_NO_SLICING") == "1":
         remaining = open_items
     else:
-        remaining = run_round(open_items, "ground", min(timeout, 2.0), backends[:1], "(ground-slice)")
+        remaining = run_round(open_items, "ground", min(timeout, 1.0), backends[:1], "(ground-slice)")
         if os.environ.get("PYVC_STRING_DIRECT") == "1":
             # obligations over strings / regular expressions: the symbol-directed slices drop the membership facts that
             # make them easy (and then run into their time limit); after the ground round they go straight to the full query
             direct = [it for it in remaining if has_string_terms(it[2])]
             remaining = [it for it in remaining if not has_string_terms(it[2])]
-        remaining = run_round(remaining, "strict", min(timeout, 3.0), backends[:1], "(strict-slice)")
+        remaining = run_round(remaining, "strict", min(timeout, 1.5), backends[:1], "(strict-slice)")
         remaining = run_round(remaining, True, min(timeout, 4.0), [b for b in backends if b in ("z3", "cvc5")], "(sliced)")
     remaining = run_round(direct + remaining, False, timeout, backends, "")
     for idx, r, ob in open_items:
